@@ -9,7 +9,7 @@ PID = "C14"
 TIERS = {
     # gen: generated knotted structures; shards: interpreters per seed; max_comp: largest conflict component for
     # which the factorial enumeration behind all_dot_brackets is requested on corpus structures
-    "quick":    dict(gen=120, maps=60, shards=3, max_comp=7, mc_required="MC_Determinism_Required.cfg"),
+    "quick":    dict(gen=120, maps=48, shards=3, max_comp=7, mc_required="MC_Determinism_Required.cfg"),
     "thorough": dict(gen=1200, maps=800, shards=8, max_comp=9, mc_required="MC_Determinism_Required_T.cfg"),
 }
 
@@ -39,7 +39,9 @@ def tasks_for(tier):
 
 
 def validate(cases, rep, sc, what="C14"):
-    res = lib.trace_validate("Trace_Determinism", "Trace_Determinism_C14.cfg", cases, sc)
+    # ~10-25 observations per case, ~1000 cases/s per TLC process: a few chunks are enough
+    res = lib.trace_validate("Trace_Determinism", "Trace_Determinism_C14.cfg", cases, sc,
+                             chunks=max(1, min(lib.NCPU, len(cases) // 250)))
     rep.add_trace(res, {c["id"]: c for c in cases}, what)
     return res
 
@@ -71,7 +73,7 @@ def run(tier):
                    min_actions=("EmitHashSet", "EmitGreedy"))
         rep.add_mc(r3, "AsImplemented (list(set(DotBracket)) at common.py:933-941) violates SameAcrossRuns",
                    negative_control=True)
-        cases = det.cases_from(grouped)
+        cases = det.cases_from(grouped, 2 * len(seeds))
         res = validate(cases, rep, sc)
         cov = rep.cov
         ok_cases = [c for c in cases if all(o["err"] == "" for o in c["obs"])]
@@ -145,7 +147,7 @@ def replay(doc):
             raise lib.MachineryError(f"cannot find input {inp} for replay")
         seeds = sorted({o["seed"] for o in case["obs"]}, key=lambda s: (s == "random", s.zfill(4)))
         grouped, _, _ = det.run_children(mine, seeds, 1, sc)
-        cases = [c for c in det.cases_from(grouped) if c["artefact"] == case["artefact"]]
+        cases = [c for c in det.cases_from(grouped, 2 * len(seeds)) if c["artefact"] == case["artefact"]]
         if not cases:
             raise lib.MachineryError(f"artefact {case['artefact']} not observed for {inp}")
         validate(cases, rep, sc)
